@@ -205,7 +205,10 @@ def run_case(w, prog, db, dbname, dialect, src=None, want_rq=True, user_names=No
             o.symptoms.append((prop, d[0], d[1]))
         elif m.okeys is not None and len(set(m.okeys)) > 1 and not outer_order_by(o.sql):
             o.symptoms.append(("C03", "order_not_enforced", "model result is ordered with %d distinct keys but outermost SELECT has no ORDER BY" % len(set(m.okeys))))
+        elif m.okeys is None and m.pokeys is not None and len(set(k for k in m.pokeys if k is not None)) > 1 and not outer_order_by(o.sql):
+            o.symptoms.append(("C03", "order_not_enforced", "rows from the ordered left input of a right/full join have %d distinct keys but outermost SELECT has no ORDER BY" % len(set(k for k in m.pokeys if k is not None))))
     o.obs["ordered"] = m.okeys is not None
+    o.obs["partially_ordered"] = m.okeys is None and m.pokeys is not None
     o.obs["nrows"] = len(m.rows)
     return o
 
@@ -484,6 +487,10 @@ def explore_shard(prop, seed, shard, n_cases, profile, dialects=("sqlite", "gene
                     obs["by_ctes"][str(nc)] = obs["by_ctes"].get(str(nc), 0) + 1
                 if st == "judged" and o.model is not None:
                     sh = o.obs["shape"]
+                    if o.obs.get("ordered"):
+                        obs["ordered_results"] = obs.get("ordered_results", 0) + 1
+                    if o.obs.get("partially_ordered"):
+                        obs["partially_ordered_results"] = obs.get("partially_ordered_results", 0) + 1
                     if (sh["ctes"] or sh["subqueries"]) and o.obs.get("nrows", 0) > 0:
                         obs["nontrivial"].add((tuple(kinds), sh["ctes"], sh["subqueries"]))
                     for a, b in zip(kinds, kinds[1:]):
